@@ -41,6 +41,8 @@ type Case struct {
 	PriorIdx  string `json:"prior_idx,omitempty"` // CLI: state of the caidx output path before the command
 	CLIOut    string `json:"cli_out,omitempty"`   // CLI: file (output paths with a history) | stdout (output "-", stdout captured apart from stderr)
 	Fault     *Fault `json:"fault,omitempty"`     // additionally pack the tree into a destination that fails (fault_test.go)
+	Unpriv    string `json:"unpriv,omitempty"`    // disk: pack in a child running as uid/gid 65534; what it cannot read (see unprivModes)
+	VictimPos int    `json:"victim_pos,omitempty"`
 }
 
 // spellings of the root path handed to NewLocalFS / the CLI. The tree lives at <scratch>/p/root,
@@ -221,6 +223,10 @@ func genCase(t *rapid.T) Case {
 		c.RootPath = rapid.SampledFrom([]string{".", "/", "r", "/a/b", "a/b", "/tmp/x y"}).Draw(t, "rootpath")
 	case "disk":
 		c.Spelling = rapid.SampledFrom(append([]string{"canonical", "canonical", "slash"}, spellings...)).Draw(t, "spelling")
+		if rapid.IntRange(0, hx.Pick(15, 5)).Draw(t, "unpriv?") == 0 {
+			c.Unpriv = rapid.SampledFrom(append([]string{"file000-nonempty", "file000-nonempty"}, unprivModes...)).Draw(t, "unpriv")
+			c.VictimPos = rapid.IntRange(0, 2).Draw(t, "victimpos")
+		}
 		if cliBin() != "" && rapid.IntRange(0, hx.Pick(23, 5)).Draw(t, "cli?") == 0 {
 			c.CLI = true
 			c.Prior = rapid.SampledFrom(append([]string{"longer", "bigger"}, priors...)).Draw(t, "prior")
@@ -238,7 +244,7 @@ func genCase(t *rapid.T) Case {
 	}
 	b := &budget{nodes: 40, bulks: 2}
 	rootKind := "dir"
-	if c.Src != "tar" && rapid.IntRange(0, 49).Draw(t, "rootkind?") == 0 { // archive of a single non-directory
+	if c.Src != "tar" && c.Unpriv == "" && rapid.IntRange(0, 49).Draw(t, "rootkind?") == 0 { // archive of a single non-directory
 		rootKind = rapid.SampledFrom([]string{"reg", "reg", "lnk", "chr", "blk"}).Draw(t, "rootkind")
 	}
 	c.Root = genNode(t, c.Src, 0, rootKind, b, chain)
@@ -335,6 +341,8 @@ func run(c Case) (o hx.Outcome) {
 		err   error
 		notes diskNotes
 		mk    func() desync.FilesystemReader // a fresh reader over the same source
+
+		unprivSkip bool // unprivileged child: no archive to judge
 	)
 	switch src {
 	case "synth":
@@ -387,11 +395,45 @@ func run(c Case) (o hx.Outcome) {
 			panic(fmt.Sprintf("harness: %v", merr))
 		}
 		root := filepath.Join(parent, "root")
+		unpriv := c.Unpriv != "" && tree.kind == "dir"
+		if unpriv && unprivClass(c.Unpriv) == "all-readable" {
+			c.Unpriv = "readable"
+		}
+		if unpriv {
+			prepareUnpriv(tree, c.Unpriv, c.VictimPos)
+		}
 		if merr := materialise(root, tree, &notes); merr != nil {
 			panic(fmt.Sprintf("harness: cannot build the tree on disk: %v", merr))
 		}
 		if want, err = snapshot(root, ""); err != nil {
 			panic(fmt.Sprintf("harness: cannot list the tree on disk: %v", err))
+		}
+		if unpriv {
+			os.Chmod(parent, 0o755)
+			archive, tarErr, infra := tarUnprivileged(parent)
+			if infra != nil {
+				o.Class("unprivileged:child-failed")
+				fmt.Fprintf(os.Stderr, "C13: unprivileged child could not run: %v\n", infra)
+				err = nil
+				unprivSkip = true
+				break
+			}
+			o.Class("unprivileged", "unprivileged:"+unprivClass(c.Unpriv))
+			if tarErr != "" {
+				o.Class("unprivileged:tar-error")
+				if c.Unpriv == "readable" {
+					err = fmt.Errorf("as uid %d: %s", unprivID, tarErr)
+				} else {
+					unprivSkip = true // refusing a tree that cannot be read completely is correct
+				}
+				break
+			}
+			o.Class("unprivileged:tar-ok")
+			out.Write(archive)
+			if c.Unpriv != "readable" && c.Unpriv != "file000-empty" {
+				o.Fail("C13:unprivileged:success-with-unreadable-content", "Tar, run as uid %d, returned nil for a tree with %s: the archive (%d bytes) cannot describe what the reader was not allowed to read", unprivID, c.Unpriv, len(archive))
+			}
+			break
 		}
 		arg, cwd, used := spell(c.Spelling, parent, tree.kind == "dir")
 		o.Class("root-spelling:" + used)
@@ -483,6 +525,9 @@ func run(c Case) (o hx.Outcome) {
 	}
 
 	// verdict
+	if unprivSkip {
+		return o
+	}
 	if err != nil {
 		o.Fail("C13:tar-error", "desync.Tar failed on a valid %s tree (%d nodes): %v", src, sh.nodes, err)
 		return o
@@ -535,6 +580,22 @@ func run(c Case) (o hx.Outcome) {
 	return o
 }
 
+func unprivClass(mode string) string {
+	switch mode {
+	case "file000-nonempty":
+		return "unreadable-file:nonempty"
+	case "file000-empty":
+		return "unreadable-file:empty"
+	case "dir000":
+		return "unreadable-dir"
+	case "dir-nox":
+		return "dir-without-x"
+	case "foreign-file-0600":
+		return "foreign-file-0600"
+	}
+	return "all-readable"
+}
+
 func clip(s string, n int) string {
 	if len(s) > n {
 		return s[:n] + "…"
@@ -559,6 +620,7 @@ var spec = &hx.Spec[Case]{
 		"mtime >= 0; uid/gid <= 2^32-2; device major < 2^12, minor < 2^20; unique names per directory",
 		"disk source: the root path is handed over in nine spellings of the same directory (canonical, trailing slash(es), /., ./x, relative, //, /./, /x/../); the archive must be the same for all",
 		"failing destination: a writer that accepts the first k bytes of the archive (k over the whole length, favouring the tail; short or refused failing write) or /dev/full; Tar == nil must imply that every archive byte was accepted, a failed Write must make Tar fail",
+		"unprivileged reader: the tree is packed by a re-exec'ed child of the test binary running as uid/gid 65534 (library Tar through LocalFS only, not the CLI); Tar may refuse a tree it cannot read completely, but success must come with a valid archive that describes exactly the tree as root lists it",
 		"CLI level (desync tar, desync tar -i over output paths with a history, and with output '-' captured from stdout apart from stderr) only when the driver provides the freshly built CLI in $VERIF_DESYNC_BIN; a CLI run that exceeds 120 s is not judged",
 	},
 	Required: []string{"concurrent-tar", "src:synth", "src:disk", "src:tar", "fanout:0", "fanout:1", "fanout:2", "fanout:3", "fanout:2^k-1", "fanout:2^k", "fanout:2^k+1",
@@ -566,7 +628,9 @@ var spec = &hx.Spec[Case]{
 		"root-spelling:non-canonical", "root-spelling:canonical", "root-spelling:slash", "root-spelling:slashdot", "root-spelling:dotslash", "root-spelling:relative",
 		"root-spelling:dslash", "root-spelling:dotmid", "root-spelling:updown", "root-spelling:slashes",
 		"tar:writer-fails", "tar:writer-fails:in-last-64KiB", "tar:writer-fails:before-last-64KiB", "tar:writer-fails:delivered", "tar:writer-fails:k=0",
-		"tar:writer-fails:in-last-100-bytes", "tar:writer-fails:in-root-goodbye", "tar:writer-fails:devfull"},
+		"tar:writer-fails:in-last-100-bytes", "tar:writer-fails:in-root-goodbye", "tar:writer-fails:devfull",
+		"unprivileged", "unprivileged:all-readable", "unprivileged:unreadable-file:nonempty", "unprivileged:unreadable-file:empty", "unprivileged:unreadable-dir",
+		"unprivileged:dir-without-x", "unprivileged:foreign-file-0600", "unprivileged:tar-error", "unprivileged:tar-ok"},
 	Gen: genCase,
 	Run: run,
 	// a case that never returns is a verdict (confirmed by a replay in a fresh process), not a timeout of the run
@@ -574,6 +638,9 @@ var spec = &hx.Spec[Case]{
 }
 
 func TestMain(m *testing.M) {
+	if os.Getenv(childEnv) != "" {
+		os.Exit(childMain())
+	}
 	debug.SetGCPercent(400) // many short-lived trees: spend the time on cases, not on the collector
 	if cliBin() != "" {
 		spec.Required = append(spec.Required, cliRequired...)
